@@ -209,6 +209,17 @@ theorem hex_injective_and_concatenates (a b : List UInt8) :
 
 example : fromHex (([0x00, 0xFF] ++ [0x1A] : List UInt8).map UInt8.toNat) = .ok ([48, 48, 70, 70] ++ [49, 65]) := by decide
 
+/-- every character of the text `String::fromHex` returns is one of `0-9A-F` (never lower case, never anything else), for EVERY byte string -/
+theorem hex_text_is_upper_case_digits (bs : List UInt8) (t : List Nat) (h : fromHex (bs.map UInt8.toNat) = .ok t) :
+    ∀ c ∈ t, (48 ≤ c ∧ c ≤ 57) ∨ (65 ≤ c ∧ c ≤ 70) := by
+  rw [hex_upper bs] at h
+  injection h with h
+  subst h
+  apply upperHex_chars
+  intro b hb
+  obtain ⟨x, _, rfl⟩ := List.mem_map.mp hb
+  exact x.toNat_lt
+
 /-! ## fromBase64 -/
 
 /-- `String::fromBase64` returns the original bytes for the RFC 4648 encoding (with padding) of EVERY
